@@ -582,7 +582,10 @@ func (k Keeper) LimitOrderBid(ctx sdk.Context) error {
 							k.DeleteUserLimitBidData(ctx, auction.DebtAssetId, auction.CollateralAssetId, premiumPerc.TruncateInt(), individualBids.BidderAddress)
 
 							k.UpdateUserLimitBidDataForAddress(ctx, individualBids, false)
-							return nil
+							// the consumed deposit leaves the recorded total as well
+							protocolData, _ := k.GetLimitBidProtocolDataByAssetID(ctx, auction.DebtAssetId, auction.CollateralAssetId)
+							protocolData.BidValue = protocolData.BidValue.Sub(paidAmount)
+							return k.SetLimitBidProtocolData(ctx, protocolData)
 						}
 						individualBids.DebtToken.Amount = individualBids.DebtToken.Amount.Sub(paidAmount)
 						individualBids.BiddingId = append(individualBids.BiddingId, biddingId)
